@@ -65,7 +65,7 @@ def thermo_values(cfgseed):
     return values
 
 
-def new_expected(recipe, arrs, shape, thermo):
+def new_expected(recipe, arrs, shape, thermo, pressure=None):
     """Independent evaluation of the recipe on one box: list of arrays (box shape)."""
     if not thermo:
         x0 = arrs[0].reshape(shape, order="F")
@@ -80,7 +80,7 @@ def new_expected(recipe, arrs, shape, thermo):
     nout = RECIPES[recipe][0]
     out = [np.empty(shape) for _ in range(nout)]
     for ijk in np.ndindex(*shape):
-        gas.TPY = T[ijk], PRESSURE_ATM * ct.one_atm, Y[ijk]
+        gas.TPY = T[ijk], (pressure or PRESSURE_ATM) * ct.one_atm, Y[ijk]
         if recipe == "s1":
             vals = [gas.density_mass]
         elif recipe in ("s2", "cs2"):
@@ -102,12 +102,12 @@ def new_expected(recipe, arrs, shape, thermo):
     return out
 
 
-def chef_kwargs(recipe):
+def chef_kwargs(recipe, pressure=None):
     """(recipe argument, extra kwargs, names of the new fields as the tool must store them)"""
     kw = {}
     thermo = RECIPES[recipe][1]
     if thermo:
-        kw.update(mech=MECH, pressure=PRESSURE_ATM)
+        kw.update(mech=MECH, pressure=pressure or PRESSURE_ATM)
     if recipe in ("u1", "u2", "s1", "s2"):
         return os.path.join(RECDIR, "r_%s.py" % recipe), kw, ["new1", "new2"][:RECIPES[recipe][0]]
     if recipe == "c1":
@@ -140,7 +140,7 @@ def close(a, b, thermo):
     return bool(np.all(np.abs(a - b) <= 1e-9 * np.maximum(np.abs(b), 1e-6 * scale) + 1e-300))
 
 
-def run_scenario(chk, sc, cfgseed, recipe, flavour="sched", workers=None):
+def run_scenario(chk, sc, cfgseed, recipe, flavour="sched", workers=None, pressure=None, serial=None):
     from amr_kitchen.chef import Chef
     from amr_kitchen.taste import Taster
     thermo = RECIPES[recipe][1]
@@ -156,7 +156,9 @@ def run_scenario(chk, sc, cfgseed, recipe, flavour="sched", workers=None):
     src, out = os.path.join(d, "in"), os.path.join(d, "out")
     reg = gamma.write_plotfile(src, ap, cfg_, values=thermo_values(cfgseed) if thermo else None)
     before = alpha.tree_digest(src)
-    rarg, kw, newnames = chef_kwargs(recipe)
+    rarg, kw, newnames = chef_kwargs(recipe, pressure)
+    if serial is None:
+        serial = bool(sc["serial"])
     kept = " ".join(nmap[k] for k in sc["kept"]) if sc["kept"] else None
     plan, pos = {}, 0
     for l in range(len(sc["levels"])):
@@ -164,9 +166,15 @@ def run_scenario(chk, sc, cfgseed, recipe, flavour="sched", workers=None):
         plan[l + 1] = sc["sched"][pos:pos + n]
         pos += n
     try:
-        with shims.pool_shim(shims.Scheduler(plan=plan, workers=workers), flavour), core.quiet():
-            ch = Chef(src, recipe=rarg, outfile=out, serial=bool(sc["serial"]), kept_fields=kept, **kw)
-            ch.cook()
+        if flavour == "real":
+            # the genuine pathos pool, cached between calls exactly as in production
+            with core.quiet():
+                ch = Chef(src, recipe=rarg, outfile=out, serial=serial, kept_fields=kept, **kw)
+                ch.cook()
+        else:
+            with shims.pool_shim(shims.Scheduler(plan=plan, workers=workers), flavour), core.quiet():
+                ch = Chef(src, recipe=rarg, outfile=out, serial=serial, kept_fields=kept, **kw)
+                ch.cook()
     except Exception as e:
         return "chef(%s, kept=%r) raised %s: %s" % (recipe, kept, type(e).__name__, str(e)[:200])
     if alpha.tree_digest(src) != before:
@@ -207,7 +215,7 @@ def run_scenario(chk, sc, cfgseed, recipe, flavour="sched", workers=None):
                     cname = newnames[jn]
                     j = ofields.index(cname)
                     if newexp is None:
-                        newexp = new_expected(recipe, inarr, shape, thermo)
+                        newexp = new_expected(recipe, inarr, shape, thermo, pressure)
                     got = fab["arrays"][j].reshape(shape, order="F")
                     if not close(got, newexp[jn], thermo):
                         k = np.unravel_index(np.argmax(np.abs(got - newexp[jn])), shape)
@@ -234,6 +242,37 @@ def run_scenario(chk, sc, cfgseed, recipe, flavour="sched", workers=None):
     if not good:
         return "taste rejects the output"
     return None
+
+
+def run_histories(chk, scenarios):
+    """ChefCache.tla: histories of cooks in ONE process with the real, cached pathos pool."""
+    r = chk.add_tlc(tlc.run("ChefCache", {"INIT": "Init", "NEXT": "Next",
+                                          "CONSTANTS": {"MaxCooks": 2 if chk.tier == "quick" else 3, "ClearOnRebuild": "TRUE"},
+                                          "INVARIANTS": ["EveryCookUsesItsOwnState", "Emit"]}, workers=4, timeout=600),
+                    "process-level pool cache histories")
+    if r.violated:
+        chk.note_drift("TLC: %s violated in ChefCache.tla" % r.violated)
+    def pick(cells):
+        for s in sorted(scenarios, key=core.jdump):
+            if [L["cells"] for L in s["levels"]] == cells and s["nnew"] == 1 and s["kept"] == [] and len(set(s["levels"][0]["file"])) == len(cells[0]):
+                return s
+        raise core.MachineryError("no C11 scenario with cells %r" % (cells,))
+    inputs = {"P": (pick([[2]]), 1.5), "Q": (pick([[2, 3]]), 0.8)}
+    hs = [h["hist"] for h in r.emitted if any(c["parallel"] for c in h["hist"])]
+    hs.sort(key=core.jdump)
+    if chk.tier == "quick":
+        hs = hs[::2]
+    for h in hs:
+        for k, c in enumerate(h):
+            sc, pres = inputs[c["input"]]
+            v = run_scenario(chk, sc, 1000 + k, "HRR", flavour="real", pressure=pres, serial=not c["parallel"])
+            if v:
+                break
+        sig = util.sig_str("history", [[c["input"], "parallel" if c["parallel"] else "serial"] for c in h])
+        chk.executed(sig, True, sample={"history": h})
+        chk.traces += 1
+        if v:
+            chk.violation(sig, "cook %d of the history %s in one process: %s" % (k + 1, core.jdump(h), v), {"history": h})
 
 
 def pick_recipe(nnew, i, tier):
@@ -283,3 +322,4 @@ def run(chk, replay):
         chk.traces += 1
         if v:
             chk.violation(sigs, v, {"sc": sc, "cfgseed": cfgseed, "recipe": recipe, "sigs": sigs})
+    run_histories(chk, scenarios)
